@@ -32,9 +32,15 @@ class Project:
         os.makedirs(self.dir, exist_ok=True)
         self.targets = [dict(t) for t in targets]
         self.backend = backend
-        self.cluster = cluster.FakeCluster(os.path.join(root, "cl"))
         self.config = dict(config or {})
         self.config["backend"] = backend
+        if backend == "local":
+            import fakepool
+            self.cluster = fakepool.FakePool()
+            self.config["backend.local.port"] = self.cluster.port
+            self.config["backend.local.host"] = "127.0.0.1"
+        else:
+            self.cluster = cluster.FakeCluster(os.path.join(root, "cl"))
         if hashing:
             self.config["use_spec_hashes"] = True
         self.known_specs = {}
@@ -83,7 +89,7 @@ class Project:
             files[os.path.join(self.dir, rel)] = mt
             with open(os.path.join(self.dir, rel), "rb") as f:
                 contents[os.path.join(self.dir, rel)] = hashlib.sha1(f.read()).hexdigest()
-        tracked = cluster.read_json(self.tracked_path()) or {}
+        tracked = {k: str(v) for k, v in (cluster.read_json(self.tracked_path()) or {}).items()}
         raw_hashes = cluster.read_json(os.path.join(self.dir, ".gwf", "spec-hashes.json"))
         st = self.cluster.read()
         jobs = sorted(st["jobs"].values(), key=lambda j: j["order"])
@@ -275,16 +281,18 @@ def seed_cluster_history(proj, rng, p_tracked=0.5):
         if rng.random() < p_tracked:
             jid = str(st["next_id"])
             st["next_id"] += 1
-            state = rng.choice(["pending", "running", "completed", "failed", "cancelled", "gone"])
+            # "gone" = the scheduler no longer knows the id; for the local pool that would mean a restarted pool,
+            # which is outside the histories considered here (DESIGN §7-N2)
+            state = rng.choice(["pending", "running", "completed", "failed", "cancelled"] + ([] if proj.backend == "local" else ["gone"]))
             if state != "gone":
-                st["jobs"][jid] = {"id": jid, "state": state, "deps": [], "kind": {"slurm": "afterok", "sge": "hold", "lsf": "done"}[proj.backend], "name": t["name"], "script": "",
+                st["jobs"][jid] = {"id": jid, "state": state, "deps": [], "kind": {"slurm": "afterok", "sge": "hold", "lsf": "done", "local": "local"}[proj.backend], "name": t["name"], "script": "",
                                    "argv": [], "code": None, "acct": None, "order": len(st["jobs"])}
             tracked[t["name"]] = jid
     st["foreign"] = [{"id": str(5000 + i), "code": rng.choice(["R", "PD", "qw", "r"])} for i in range(rng.randint(0, 2))]
     proj.cluster.write(st)
     if tracked:
         with open(proj.tracked_path(), "w") as f:
-            json.dump(tracked, f)
+            json.dump({k: (int(v) if proj.backend == "local" else v) for k, v in tracked.items()}, f)
     if proj.hashing and rng.random() < 0.7:
         hashes = {}
         for t in proj.targets:
@@ -334,8 +342,8 @@ def step_dry(proj, patterns=()):
             "pure": semantic_state(pre) == semantic_state(post), "calls": calls}
 
 
-SUBMIT_CMD = {"slurm": "sbatch", "sge": "qsub", "lsf": "bsub"}
-CANCEL_CMD = {"slurm": "scancel", "sge": "qdel", "lsf": "bkill"}
+SUBMIT_CMD = {"slurm": "sbatch", "sge": "qsub", "lsf": "bsub", "local": "enqueue_task"}
+CANCEL_CMD = {"slurm": "scancel", "sge": "qdel", "lsf": "bkill", "local": "cancel_task"}
 
 
 def step_run(proj, patterns=(), reject_nth=None, backend_cmd=None):
@@ -356,6 +364,8 @@ def step_run(proj, patterns=(), reject_nth=None, backend_cmd=None):
             m = re.search(r"(?:#SBATCH --job-name=|#\$ -N |#BSUB -J )(\S+)", e["stdin"])
             if not e.get("fault"):
                 subs.append({"name": m.group(1) if m else "?", "argv": e["argv"], "reply": e["reply"]})
+        elif e["cmd"] == "enqueue_task" and not e.get("fault"):
+            subs.append({"name": e["msg"].get("name"), "argv": [], "reply": e.get("reply"), "deps": e["msg"].get("deps")})
     rejected = any(e.get("fault") for e in log)
     line, _, _ = proj.model("run", pre, mklist(hx(p) for p in patterns), str(len(subs)) if rejected else "-")
     def nolog(d):
@@ -412,7 +422,7 @@ def step_cancel(proj, patterns=(), force=True, answer=None, fail_nth=None):
     proj.cluster.clear_log()
     args = ["cancel"] + (["--force"] if force else []) + list(patterns)
     code, out, err = proj.gwf(args, input=answer)
-    log = [e for e in proj.cluster.log() if e["cmd"] in ("scancel", "qdel", "bkill")]
+    log = [e for e in proj.cluster.log() if e["cmd"] in ("scancel", "qdel", "bkill", "cancel_task")]
     post = proj.observe()
     line, _, _ = proj.model("cancel", pre, mklist(hx(p) for p in patterns))
     prompted = (not patterns) and (not force)
@@ -424,7 +434,7 @@ def step_cancel(proj, patterns=(), force=True, answer=None, fail_nth=None):
 
 # ------------------------------------------------------------------ comparators (main process)
 
-QUERY_CMDS = {"squeue", "sacct", "qstat", "bjobs", "sinfo"}
+QUERY_CMDS = {"squeue", "sacct", "qstat", "bjobs", "sinfo", "get_task_states", "close", None}
 
 
 def id2name(ids):
@@ -510,6 +520,20 @@ def compare(p, mline):
             bad.append(("C18", "spec hashes after run %r, model %r" % (p["hashes"], unkv(m.get("hashes", "")))))
         if not p["files_same"]:
             bad.append(("C05", "gwf run modified workflow files"))
+        # the prerequisite arguments as the scheduler receives them vs the model's rendering
+        exp_args = []
+        for e in (m.get("args", "").split(";") if m.get("args") else []):
+            n, frag = e.split(":")
+            exp_args.append((common.unhx(n), [common.unhx(a) for a in frag.split("+")] if frag else []))
+        got_args = []
+        for sub in p["subs"]:
+            if "deps" in sub:
+                got_args.append((sub["name"], [str(d) for d in (sub["deps"] or [])]))
+            else:
+                argv = [a for a in sub["argv"] if a not in ("--parsable", "-terse")]
+                got_args.append((sub["name"], argv))
+        if got_args != exp_args and got_names == exp_names:
+            bad.append(("C07", "prerequisite arguments handed to the scheduler %r, model %r" % (got_args, exp_args)))
     elif kind == "touch":
         mfiles = unfiles(m.get("files", ""))
         if set(p["post_files"]) != set(mfiles):
